@@ -147,6 +147,7 @@ type machine struct {
 	fold      map[string]*Term
 	buffers   map[*value]*value
 	onIdle    value
+	onces     map[*value]bool
 	permCache map[string][]int
 	smallVars map[string]*inputVar
 	runesMax  int
